@@ -29,6 +29,11 @@ FUNCTIONS = [
     "pde.fields.vectorial:VectorField.from_expression",
     "pde.fields.vectorial:VectorField.dot",
     "pde.fields.vectorial:VectorField.outer_product",
+    "pde.grids.base:GridBase.get_vector_data",
+    "pde.grids.spherical:SphericalSymGridBase.get_image_data",
+    "pde.backends.numba.operators.cylindrical_sym:make_vector_gradient",
+    "pde.backends.numba.operators.cylindrical_sym:make_divergence",
+    "pde.backends.numba.operators.cylindrical_sym:make_gradient",
 ]
 ASSUMPTIONS = [
     "angles are symbols; cos/sin are uninterpreted functions constrained by cos^2 + sin^2 = 1 for every angle that occurs (all identities checked are polynomial consequences of that)",
@@ -221,8 +226,79 @@ def scenario_pipeline(env, cfg):
     env.reach()
 
 
+def scenario_operators_by_name(env, cfg):
+    """the component that access by axis name selects is the one the differential operators use"""
+    import pde
+
+    from . import c16_interpolation as I
+
+    I._prepare(env)
+    grid = pde.CylindricalSymGrid((1, 3), (-1, 1), (4, 4))
+    names = list(grid.axes) + list(grid.axes_symmetric)
+    a = env.real("a", 0.25, 4)
+    dt = object if env.sym else float
+    r = grid.cell_coords[..., 0]
+    z = grid.cell_coords[..., 1]
+    inner = (slice(1, -1), slice(1, -1))
+    bc = "auto_periodic_neumann"
+    # gradient of a*z has only a 'z' component
+    f = pde.ScalarField(grid, np.asarray(a * z, dtype=dt), dtype=dt)
+    g = f.gradient(bc)
+    env.close("gradient(a*z)['z']=a", list(g["z"].data[inner].flat), [a] * 4, scale=SC)
+    env.close("gradient(a*z)['r']=0", list(g["r"].data[inner].flat), [0] * 4, scale=SC)
+    # divergence of a*z*e_z is a; divergence of a*r*e_r is 2a
+    v = pde.VectorField(grid, dtype=dt)
+    v.data[...] = 0
+    v["z"] = np.asarray(a * z, dtype=dt)
+    env.close("divergence(a*z*e_z)=a", list(v.divergence(bc).data[inner].flat), [a] * 4, scale=SC)
+    # vector gradient of a*z*e_z: only the (z, z) entry; nothing in (r, phi) / (phi, r)
+    t = v.gradient(bc)
+    iz, ir, ip = names.index("z"), names.index("r"), names.index("φ")
+    env.close("vector_gradient(a*z*e_z)[z,z]=a", list(t.data[iz, iz][inner].flat), [a] * 4, scale=SC)
+    env.close("vector_gradient(a*z*e_z)[r,phi]=0", list(t.data[ir, ip][inner].flat), [0] * 4, scale=SC)
+    env.close("vector_gradient(a*z*e_z)[phi,r]=0", list(t.data[ip, ir][inner].flat), [0] * 4, scale=SC)
+    # rigid rotation a*r*e_phi: gradient has (r, phi) = -a and (phi, r) = a, nothing in the z rows
+    w = pde.VectorField(grid, dtype=dt)
+    w.data[...] = 0
+    w["φ"] = np.asarray(a * r, dtype=dt)
+    tw = w.gradient(bc)
+    env.close("vector_gradient(a*r*e_phi)[r,phi]=-a", list(tw.data[ir, ip][inner].flat), [-a] * 4, scale=SC)
+    env.close("vector_gradient(a*r*e_phi)[phi,r]=a", list(tw.data[ip, ir][inner].flat), [a] * 4, scale=SC)
+    env.close("vector_gradient(a*r*e_phi)[z,r]=0", list(tw.data[iz, ir][inner].flat), [0] * 4, scale=SC)
+    env.reach()
+
+
+def scenario_vector_data(env, cfg):
+    """conversion for vector plots (get_vector_data): r*e_r -> (x, y), r*e_phi -> (-y, x) at the returned points"""
+    import pde
+
+    from . import c16_interpolation as I
+
+    # (the image pipeline goes through scipy's interp1d: concrete amplitude, enumerated points)
+    grid = pde.PolarSymGrid((1, 3), 4)
+    a = 1.5
+    dt = float
+    rr = grid.axes_coords[0]
+    for which, want in (("radial", lambda X, Y: (X, Y)), ("azimuthal", lambda X, Y: (-Y, X))):
+        vf = pde.VectorField(grid, dtype=dt)
+        vf.data[...] = 0
+        vf.data[0 if which == "radial" else 1] = np.asarray(a * rr, dtype=dt)
+        d = vf.get_vector_data(transpose=False) if "transpose" in vf.get_vector_data.__code__.co_varnames else vf.get_vector_data()
+        X, Y = np.meshgrid(d["x"], d["y"], indexing="ij")
+        lhs, rhs = [], []
+        for idx in np.ndindex(*X.shape):
+            rad = float(np.hypot(X[idx], Y[idx]))
+            if not (1.3 < rad < 2.7) or (idx[0] + idx[1]) % 3:
+                continue
+            wx, wy = want(float(X[idx]), float(Y[idx]))
+            lhs += [d["data_x"][idx], d["data_y"][idx]]
+            rhs += [a * wx, a * wy]
+        env.prove(f"{which}:points-sampled", len(lhs) > 4)
+        env.prove(f"get_vector_data:{which}-field", bool(np.allclose(np.array(lhs, dtype=float), np.array(rhs, dtype=float), rtol=0.02, atol=0.02)))
+
+
 def cases(tier, seed):
-    out = []
+    out = [{"name": "operators-by-name:cyl", "scenario": "scenario_operators_by_name", "cfg": {}}, {"name": "vector-data:polar", "scenario": "scenario_vector_data", "cfg": {}, "validate_paths": 0}]
     for k in ("polar", "sph", "cyl"):
         out.append({"name": f"basis:{k}", "scenario": "scenario_basis", "cfg": {"kind": k}})
         out.append({"name": f"component-order:{k}", "scenario": "scenario_component_order", "cfg": {"kind": k}})
